@@ -61,6 +61,31 @@ def sp_call(fn, p, **kw):
     return ("val", v)
 
 
+class Batch:
+    """all observation records of a run are judged by one (parallel) TLC oracle invocation"""
+
+    def __init__(self):
+        self.recs, self.handlers = [], []
+
+    def add(self, rec, handler):
+        self.recs.append(rec)
+        self.handlers.append(handler)
+
+    def flush(self, run, rng):
+        answers = oracle_parallel("SpreadingOracle", self.recs)
+        for h, a in zip(self.handlers, answers):
+            h(a)
+        run.add("traces_validated_against_impl", len(self.recs))
+        for kind in ("geo", "pt"):
+            idx = [i for i, r in enumerate(self.recs) if r["k"] == kind]
+            if idx:
+                k = idx[rng.randrange(len(idx))]
+                r = dict(self.recs[k])
+                if kind == "geo":
+                    r["pts"] = r["pts"][:3] + ["..."] + r["pts"][-2:]
+                run.sample({"kind": f"observation record judged by SpreadingOracle ({'GeoStep' if kind == 'geo' else 'PtStep'})", "record": r, "answer": answers[k]})
+
+
 def _noval(o):
     """observed-class of a call that produced no number (the arguments were valid: a refusal is not a value either)"""
     return {"refused": "refused:", "exc": "exception:"}.get(o[0], "") + (o[1] if o[0] in ("refused", "exc") else "no finite number")
@@ -167,13 +192,12 @@ def judge_geo(run, site, model, par_float, ctx, ans, offset, observed_pi0):
                        "spec": "Spreading!GeoStep"})
 
 
-def relational(run, grid, meta, rng, thorough):
-    recs, ctxs = [], []
+def relational(run, grid, meta, rng, thorough, batch):
     for model in sorted(grid):
         entries = sorted(grid[model], key=lambda e: par_key(e["par"]))
         if not thorough:
             rng.shuffle(entries)
-            entries = entries[:max(4, len(entries) // 4)]
+            entries = entries[:max(3, len(entries) // 5)]
         for entry in entries:
             mdl = build(model, entry["par"])
             for top in entry["tops"]:
@@ -188,18 +212,8 @@ def relational(run, grid, meta, rng, thorough):
                                    "observed": _noval(bad)},
                                   {"model": model, "parameters": fpar(entry["par"]), "argument": p, "message": bad[-1]})
                     continue
-                recs.append(rec)
-                ctxs.append((model, entry))
-    answers = oracle_parallel("SpreadingOracle", recs)
-    for (model, entry), rec, ans in zip(ctxs, recs, answers):
-        judge_geo(run, f"{model}.spreading_pressure", model, fpar(entry["par"]), {}, ans,
-                  float(frac(entry["offset"])), dec_dec(rec["z"][1]))
-    run.add("traces_validated_against_impl", len(recs))
-    if recs:
-        k = rng.randrange(len(recs))
-        r = dict(recs[k])
-        r["pts"] = r["pts"][:3] + ["..."] + r["pts"][-2:]
-        run.sample({"kind": "geometric-grid record judged by SpreadingOracle!GeoStep", "record": r, "answer": answers[k]})
+                batch.add(rec, lambda ans, model=model, entry=entry, rec=rec: judge_geo(
+                    run, f"{model}.spreading_pressure", model, fpar(entry["par"]), {}, ans, float(frac(entry["offset"])), dec_dec(rec["z"][1])))
 
 
 def unit_factors(pairs):
@@ -222,17 +236,19 @@ def unit_factors(pairs):
 FOREIGN = [("absolute", "kPa"), ("absolute", "torr"), ("absolute", "atm"), ("relative", "none"), ("relative%", "none")]
 
 
-def model_isotherm_units(run, meta, rng, thorough):
+NATIVES = [("absolute", "bar"), ("relative", "none")]
+MMOL_MOL = (("molar", "mmol"), ("molar", "mol"))
+
+
+def model_isotherm_units(run, meta, rng, thorough, batch, fac):
     """spreading_pressure_at(p given in another unit/mode) == bare spreading_pressure(p converted)."""
     import pygaps
     from ..units_common import dec
-    natives = [("absolute", "bar"), ("relative", "none")]
-    fac = unit_factors([(n0, f) for n0 in natives for f in FOREIGN + natives])
+    natives = NATIVES
     cases = [("Langmuir", {"K": [7, 5], "n_m": [17, 5]}, [0.05, 0.8, 6.0]),
              ("BET", {"n_m": [3, 4], "C": [80, 1], "N": [2, 5]}, [0.05, 0.5, 1.2]),
              ("Toth", {"n_m": [17, 5], "K": [13, 2], "t": [3, 4]}, [0.02, 0.3, 1.7]),
              ("DSLangmuir", {"n_m1": [3, 4], "K1": [13, 2], "n_m2": [6, 5], "K2": [9, 10]}, [0.03, 0.5, 4.0])]
-    recs, ctxs = [], []
     for model, par, ps in cases:
         bare = build(model, par)
         for n0 in natives:
@@ -241,7 +257,7 @@ def model_isotherm_units(run, meta, rng, thorough):
                                        material_basis="mass", material_unit="g")
             for f in FOREIGN + [n0]:
                 k = fac[(n0, f)]
-                ctx = {"native_mode": n0[0], "pressure_mode": f[0], "pressure_unit": f[1]}
+                ctx = {"native_mode": n0[0], "pressure_mode": f[0]}
                 kw = dict(pressure_mode=f[0], pressure_unit=dec(f[1]))
                 for p in ps:
                     run.count(("miso", model, n0, f, p), nontrivial=f != n0)
@@ -257,17 +273,13 @@ def model_isotherm_units(run, meta, rng, thorough):
                     rec, problems = geo_record(model, par, meta, "model", grid,
                                                lambda q: sp_call(iso.loading_at, q, **kw), lambda q: sp_call(iso.spreading_pressure_at, q, **kw))
                     if rec is not None:
-                        recs.append(rec)
-                        ctxs.append((model, par, ctx))
+                        run.count(("miso-geo", model, tuple(sorted(ctx.items()))), n=len(rec["pts"]))
+                        batch.add(rec, lambda ans, model=model, par=par, ctx=ctx: judge_geo(
+                            run, "ModelIsotherm.spreading_pressure_at", model, fpar(par), ctx, ans, 0.0, 0.0))
                     else:
                         q, a, b = problems[0]
                         run.violation({"site": "ModelIsotherm.spreading_pressure_at" if b[0] != "val" else "ModelIsotherm.loading_at", "clause": "units", **ctx,
                                        "observed": _noval(b if b[0] != "val" else a)}, {"model": model, "argument": q, "kwargs": kw, "problem": [a, b]})
-    answers = oracle_parallel("SpreadingOracle", recs)
-    for (model, par, ctx), rec, ans in zip(ctxs, recs, answers):
-        run.count(("miso-geo", model, tuple(sorted(ctx.items()))), n=len(rec["pts"]))
-        judge_geo(run, "ModelIsotherm.spreading_pressure_at", model, fpar(par), ctx, ans, 0.0, 0.0)
-    run.add("traces_validated_against_impl", len(recs))
 
 
 # ------------------------------------------------------------------ 5. point isotherms
@@ -283,15 +295,14 @@ def qclass(i, nq):
     return "below_range" if i == 0 else ("first_point" if i == 1 else ("edge" if i == nq - 1 else ("data_point" if i % 2 == 1 else "inside")))
 
 
-def point_isotherms(run, scen, meta, rng, thorough):
+def point_isotherms(run, scen, meta, rng, thorough, batch, fac):
     from ..units_common import dec
     scen = sorted(scen, key=lambda s: json.dumps([s["P"], s["N"]]))
     if not thorough:
         rng.shuffle(scen)
-        scen = scen[:110]
-    fac = unit_factors([(("absolute", "bar"), f) for f in FOREIGN] + [(("molar", "mmol"), ("molar", "mol"))])
-    lfac = fac[(("molar", "mmol"), ("molar", "mol"))]
-    ptrecs, ptctx = [], []
+        scen = scen[:90]
+    lfac = fac[MMOL_MOL]
+    npt = 0
     site = "PointIsotherm.spreading_pressure_at"
     for si, s in enumerate(scen):
         P, N = [frac(x) for x in s["P"]], [frac(x) for x in s["N"]]
@@ -335,29 +346,21 @@ def point_isotherms(run, scen, meta, rng, thorough):
                     run.violation({"site": site, "clause": "integral", **ctx, "observed": "differs from the integral of the interpolant"},
                                   {**detail, "returned": v})
                 if vname == "native":
-                    ptrecs.append({"k": "pt", "P": s["P"], "N": s["N"], "qp": qd["q"],
-                                   "lns": [dec_enc(math.log(float(frac(t["arg"])))) for t in qd["logs"]], "pi": dec_enc(v)})
-                    ptctx.append((ctx, detail, v))
+                    npt += 1
+                    batch.add({"k": "pt", "P": s["P"], "N": s["N"], "qp": qd["q"],
+                               "lns": [dec_enc(math.log(float(frac(t["arg"])))) for t in qd["logs"]], "pi": dec_enc(v)},
+                              lambda ans, ctx=ctx, detail=detail, v=v: None if ans["ok"] else run.violation(
+                                  {"site": site, "clause": "integral", **ctx, "observed": "differs from the integral of the interpolant"},
+                                  {**detail, "returned": v, "spec": "Spreading!PtStep", "expected_decimal": dec_dec(ans["expected"])}))
                     # loading_at of the same fresh object is the integrand (derivative clause uses it in the spec)
                     if cls != "below_range":
                         ol = sp_call(iso.loading_at, q)
                         if ol[0] == "val" and _relerr(ol[1], float(frac(qd["n"]))) > TOL_CLOSED:
                             run.violation({"site": "PointIsotherm.loading_at", "clause": "interpolant", **ctx, "observed": "differs from linear interpolation"},
                                           {**detail, "returned": ol[1], "expected_loading": float(frac(qd["n"]))})
-    answers = oracle_parallel("SpreadingOracle", ptrecs)
-    for (ctx, detail, v), ans in zip(ptctx, answers):
-        if not ans["ok"]:
-            run.violation({"site": site, "clause": "integral", **ctx, "observed": "differs from the integral of the interpolant"},
-                          {**detail, "returned": v, "spec": "Spreading!PtStep", "expected_decimal": dec_dec(ans["expected"])})
-    run.add("traces_validated_against_impl", len(ptrecs))
-    run.set(point_datasets=len(scen), point_queries=len(ptrecs))
-    if ptrecs:
-        k = rng.randrange(len(ptrecs))
-        run.sample({"kind": "point-isotherm observation judged by SpreadingOracle!PtStep", "record": ptrecs[k], "answer": answers[k]})
+    run.set(point_datasets=len(scen), point_queries=npt)
 
     # geometric contract on measured-like data (loading_at as integrand): additivity, monotone, zero, derivative
-    import numpy
-    recs, ctxs = [], []
     datasets = [([0.02, 0.1, 0.4, 1.0, 2.5, 6.0], [0.4, 1.3, 2.6, 3.4, 3.9, 4.1]),
                 ([0.05, 0.5, 5.0], [0.2, 1.9, 9.5]),
                 ([0.01, 0.03, 0.2, 0.9, 3.0, 4.0, 8.0], [0.5, 0.9, 1.4, 1.5, 2.8, 3.0, 3.05])]
@@ -400,14 +403,10 @@ def point_isotherms(run, scen, meta, rng, thorough):
                 run.violation({"site": site, "clause": "value", **ctx, "observed": _noval(oz)},
                               {"pressure": P, "loading": N, "query": qz, "kwargs": kw, "message": oz[-1]})
                 continue
-            recs.append({"k": "geo", "model": "Point", "par": {}, "h": meta["lnr"], "w": int(meta["window"]), "kind": "point", "pts": pts,
-                         "z": [dec_enc(N[0] * qz / (P[0] * k)), dec_enc(oz[1])]})
-            ctxs.append((ctx, P, N, kw))
-    answers = oracle_parallel("SpreadingOracle", recs)
-    for (ctx, P, N, kw), rec, ans in zip(ctxs, recs, answers):
-        run.count(("pt-geo", json.dumps([P, N, kw])), n=len(rec["pts"]))
-        judge_geo(run, site, "PointIsotherm", {"pressure": P, "loading": N, "kwargs": kw}, ctx, ans, 0.0, 0.0)
-    run.add("traces_validated_against_impl", len(recs))
+            run.count(("pt-geo", json.dumps([P, N, kw])), n=len(pts))
+            batch.add({"k": "geo", "model": "Point", "par": {}, "h": meta["lnr"], "w": int(meta["window"]), "kind": "point", "pts": pts,
+                       "z": [dec_enc(N[0] * qz / (P[0] * k)), dec_enc(oz[1])]},
+                      lambda ans, ctx=ctx, P=P, N=N, kw=kw: judge_geo(run, site, "PointIsotherm", {"pressure": P, "loading": N, "kwargs": kw}, ctx, ans, 0.0, 0.0))
 
 
 # ------------------------------------------------------------------ entry points
@@ -437,16 +436,19 @@ def main(tier, seed):
     stats = {}
     replay_sym(run, sym, set(meta["quad"]), rng, stats)
     run.set(symbolic_worst_relative_error={k: float(f"{v:.3g}") for k, v in sorted(stats.items()) if v > 1e-13})
-    relational(run, grid, meta, rng, thorough)
-    model_isotherm_units(run, meta, rng, thorough)
-    point_isotherms(run, scen, meta, rng, thorough)
+    batch = Batch()
+    fac = unit_factors([(n0, f) for n0 in NATIVES for f in FOREIGN + NATIVES] + [MMOL_MOL])
+    relational(run, grid, meta, rng, thorough, batch)
+    model_isotherm_units(run, meta, rng, thorough, batch, fac)
+    point_isotherms(run, scen, meta, rng, thorough, batch, fac)
+    batch.flush(run, rng)
 
     run.set(exhaustive=False,
             rule="(a) symbolic integrals of spec/Spreading.tla on the exact grid (11 models with an elementary integral, 223 parameter vectors x 4-6 pressures + the zero point) "
                  "evaluated in float64 against spreading_pressure(); (b) geometric pressure grids (16 points per octave, 12 octaves, 2 top pressures) for "
-                 + ("all" if thorough else "a seeded quarter (at least 4 per model) of the") + " general parameter vectors of all 13 models, judged by TLC with Simpson sums; "
+                 + ("all" if thorough else "a seeded fifth (at least 3 per model) of the") + " general parameter vectors of all 13 models, judged by TLC with Simpson sums; "
                  "(c) ModelIsotherm.spreading_pressure_at for 4 models x 2 native modes x 6 pressure representations; (d) "
-                 + ("all 475" if thorough else "110 seeded") + " enumerated point-isotherm data sets x every query class (below range, first point, inside, data point, edge) "
+                 + ("all 475" if thorough else "90 seeded") + " enumerated point-isotherm data sets x every query class (below range, first point, inside, data point, edge) "
                  "x native / foreign pressure unit or mode / loading unit. non-trivial = positive pressure (a) / query beyond the Henry segment (d); "
                  "distinct = distinct (part, model or data set, parameters, pressure or query, unit variant)")
     run.assume("the integrand is the library's own loading()/loading_at() of the same object (that it is the model equation / the linear interpolant is checked by C10 and here by PiPoint's n)")
